@@ -176,6 +176,10 @@ UNITS["C08"] = [
        "the fvar value is the nearest 16.16 value (|bits - v*65536| <= 0.5); a user coordinate that is a 16.16 value is stored exactly"),
     _k("c08_normalized_coord_into_f2dot14_is_nearest_2_14", "fontdrasil", "fontdrasil/src/coords.rs", ["fontdrasil::coords::<F2Dot14 as From<NormalizedCoord>>::from", "fontdrasil::coords::NormalizedCoord::to_f2dot14"], "complete",
        "every f64 in [-1, 1]; loop-free", "v in [-1, 1]", "the avar coordinate is the nearest 2.14 value; -1, 0, +1 are exact; to_f2dot14 and Into agree"),
+    _k("c08_converter_sends_nodes_to_minus1_0_plus1_3", "fontdrasil", "fontdrasil/src/coords.rs",
+       ["fontdrasil::coords::<UserSpace as ConvertSpace<DesignSpace>>::convert_coord", "<DesignSpace as ConvertSpace<NormalizedSpace>>::convert_coord", "<UserSpace as ConvertSpace<NormalizedSpace>>::convert_coord", "<NormalizedSpace as ConvertSpace<DesignSpace>>::convert_coord", "<NormalizedSpace as ConvertSpace<UserSpace>>::convert_coord"], "bounded",
+       "a CoordConverter written down literally in the shape new() builds for a strictly increasing 3-node mapping with the default in the middle (new() itself does not discharge); node values arbitrary in +/-1e6", "converter well-formed (maps sorted; design min/default/max anchored at -1/0/+1)",
+       "user node k -> design node k -> -1 / 0 / +1, directly and through the two chained maps; and back from the normalized anchors to the design and user nodes", timeout_s=1200),
     _k("c08_avar_default_segment_map_is_required_triple", "fontbe", "fontbe/src/avar.rs", ["fontbe::avar::default_segment_map"], "complete", "no inputs",
        "-", "exactly the three maps -1:-1, 0:0, 1:1 in increasing order"),
     _k("c08_plm_cover", "fontdrasil", _PLM, [], "complete", "", "", "node branch and extrapolation branch reachable with a non-trivial map", kind="cover"),
@@ -309,7 +313,7 @@ ASSUME = {
     ],
     "C08": [
         "paper lemma (not machine-checked): both normalisation routes are piecewise linear in the user coordinate with breakpoints at the mapping nodes, so exact agreement at the nodes implies agreement between them up to f64 interpolation error and F2Dot14 quantisation",
-        "not under contract: CoordConverter::{new,default_normalization,unmapped}, fontbe::avar::to_segment_map (attempted, > 25 min), generate_fvar (takes StaticMetadata), named-instance coordinates, the front ends that build Axis",
+        "not under contract: CoordConverter::{new,default_normalization,unmapped} (attempted, > 25 min: the converter-level obligation therefore takes a literally written converter of the shape new() builds as its precondition), fontbe::avar::to_segment_map, generate_fvar (takes StaticMetadata), named-instance coordinates, the front ends that build Axis",
     ],
     "C13": [
         "assumed, not proved: Parser forwards every lexeme exactly once to AstSink::token in the presence of the grammar (the thorough tier checks this for the bare Parser+AstSink on inputs <= 2 bytes); AstSink/TreeBuilder/rewrite re-emit every buffered child; grammar loops go through Parser::eat* or progress-checked repeat; validation does not panic; include resolution honours MAX_INCLUDE_DEPTH",
